@@ -159,6 +159,10 @@ def tasks_c13(tier, seed):
     return seq("c13", tier, shards=16) + IX_TASKS(tier)
 
 
+def tasks_c14(tier, seed):
+    return seq("c13", tier, shards=12) + seq("c14h", tier, shards=4)
+
+
 def IX_TASKS(tier):
     if tier == "quick":
         return explore("IX1", "", 2, shards=2, timeout="100s")
@@ -236,7 +240,7 @@ PLANS = {
             "assumptions": ["a BadgerDB call made by a controlled thread is one atomic step (BadgerDB itself is assumed linearizable)", "keylock and mockstore's RWMutex are scheduler objects"]},
     "C13": {"tasks": tasks_c13, "level": "model_checking",
             "assumptions": ["index keys are NUL-free", "BadgerDB calls are atomic steps"]},
-    "C14": {"tasks": tasks_c13, "level": "model_checking",
+    "C14": {"tasks": tasks_c14, "level": "model_checking",
             "assumptions": ["same enumeration as C13; the query-handler path over a Service is covered by the c14h check"]},
     "C10": {"tasks": tasks_c10, "level": "model_checking",
             "assumptions": ["reference RES client: change sets/deletes keys, add/remove need in-range indexes, create/delete trigger a re-fetch", "mutations go through mockstore (badgerstore shares the OnChange contract checked by C11)"]},
